@@ -34,6 +34,9 @@ type Op struct {
 	N   int    `json:"n,omitempty"`
 	Ref string `json:"ref,omitempty"` // "@self" = the node's own digest string
 	Bad string `json:"bad,omitempty"` // flip, short, long, empty
+	// Ann != "": the descriptor handed to Tag carries the annotation verif.v=Ann
+	// (same content, another descriptor: Resolve must hand back the latest one)
+	Ann string `json:"ann,omitempty"`
 }
 
 // Case is a sequential history followed by an optional concurrent phase.
@@ -97,7 +100,7 @@ func genCase(kind string) func(t *rapid.T) Case {
 			case r < 52:
 				return Op{Op: "exists", N: n}
 			case r < 72:
-				return Op{Op: "tag", N: n, Ref: rapid.SampledFrom(refNames).Draw(t, "ref")}
+				return Op{Op: "tag", N: n, Ref: rapid.SampledFrom(refNames).Draw(t, "ref"), Ann: rapid.SampledFrom([]string{"", "", "a", "b"}).Draw(t, "tagAnn")}
 			case r < 82:
 				return Op{Op: "resolve", Ref: rapid.SampledFrom(refNames[:3]).Draw(t, "rref")}
 			}
@@ -142,6 +145,20 @@ func genCase(kind string) func(t *rapid.T) Case {
 
 type tagVal struct {
 	node int
+	ann  string
+}
+
+// tagDesc is the descriptor handed to Tag for a node and an annotation variant.
+func tagDesc(n *gen.Node, ann string) ocispec.Descriptor {
+	d := n.PushDesc()
+	if ann != "" {
+		m := map[string]string{"verif.v": ann}
+		for k, v := range d.Annotations {
+			m[k] = v
+		}
+		d.Annotations = m
+	}
+	return d
 }
 
 type tmodel struct {
@@ -234,7 +251,7 @@ func (m *tmodel) expectPush(n *gen.Node, bad bool, preExisting map[int]bool) err
 	return nil
 }
 
-func (m *tmodel) expectTag(n *gen.Node, ref string) error {
+func (m *tmodel) expectTag(n *gen.Node, ref string, ann ...string) error {
 	if ref == "" && m.c.Kind != "memory" {
 		return errdef.ErrMissingReference
 	}
@@ -244,7 +261,11 @@ func (m *tmodel) expectTag(n *gen.Node, ref string) error {
 	if m.c.Kind == "oci" && ref == n.Desc.Digest.String() {
 		return nil // the digest entry is not a tag
 	}
-	m.tags[ref] = tagVal{n.ID}
+	tv := tagVal{node: n.ID}
+	if len(ann) > 0 {
+		tv.ann = ann[0]
+	}
+	m.tags[ref] = tv
 	return nil
 }
 
@@ -467,6 +488,9 @@ func runCase(c Case) (res vt.Result, fail *vt.Fail) {
 				if desc.Digest != n.Desc.Digest || desc.Size != n.Desc.Size || desc.MediaType != n.Desc.MediaType {
 					return vt.Failf("C06/resolve-mismatch", "%s: Resolve(%q) = %s, model says node %d %s", when, ref, gen.TripleKey(desc), n.ID, gen.TripleKey(n.Desc))
 				}
+				if got := desc.Annotations["verif.v"]; got != tv.ann {
+					return vt.Failf("C06/resolve-not-latest-descriptor", "%s: Resolve(%q) carries annotation verif.v=%q, the descriptor most recently tagged there carried %q", when, ref, got, tv.ann)
+				}
 			}
 		}
 		if ociS != nil {
@@ -513,8 +537,11 @@ func runCase(c Case) (res vt.Result, fail *vt.Fail) {
 			if !m.has(n) {
 				absentOp++
 			}
-			want := m.expectTag(n, ref)
-			got := s.Tag(ctx, n.PushDesc(), ref)
+			want := m.expectTag(n, ref, op.Ann)
+			got := s.Tag(ctx, tagDesc(n, op.Ann), ref)
+			if op.Ann != "" {
+				classes["tag-with-annotated-descriptor"] = true
+			}
 			if !matches(got, want) {
 				return res, vt.Failf("C06/tag-result", "%s: Tag returned %v (%s), model expects %v", when, got, classOf(got), want)
 			}
@@ -801,7 +828,7 @@ func runConcurrent(ctx context.Context, c *Case, d *gen.DAG, s store, m *tmodel,
 		if found < 0 {
 			return vt.Failf("C06/concurrent-tag-not-sequential", "Resolve(%q) = %s is not the last tag of any goroutine (candidates %v)", ref, gen.TripleKey(desc), gen.SortedKeys(set))
 		}
-		m.tags[ref] = tagVal{found}
+		m.tags[ref] = tagVal{node: found}
 	}
 	return nil
 }
